@@ -73,11 +73,13 @@ PlantNil ==
 Marshal ==
     /\ IsEvent("marshal")
     /\ LET e == Trace[l]
-           impl == e.ok /\ (IF e.det THEN e.out = EncMsg(S, typ, msg) ELSE ValidEnc(typ, e.out, msg))
+           \* out_direct: the fast-path method called directly with ONLY the Deterministic flag set
+           impl == e.ok /\ (IF e.det THEN e.out = EncMsg(S, typ, msg) /\ e.out_direct = e.out ELSE ValidEnc(typ, e.out, msg))
            ref  == e.ref_ok /\ (IF e.det THEN e.ref_out = EncMsg(S, typ, rmsg) ELSE ValidEnc(typ, e.ref_out, rmsg))
        IN Verdict(e, impl, ref,
                   IF ~e.ok THEN "marshal:error"
-                  ELSE IF Len(e.out) # SizeMsg(S, typ, msg) THEN "marshal:length" ELSE "marshal:bytes")
+                  ELSE IF Len(e.out) # SizeMsg(S, typ, msg) THEN "marshal:length"
+                  ELSE IF e.det /\ e.out = EncMsg(S, typ, msg) /\ e.out_direct # e.out THEN "marshal:direct-flags" ELSE "marshal:bytes")
     /\ UNCHANGED <<typ, msg, rmsg>>
     /\ l' = l + 1
 
@@ -145,8 +147,8 @@ Lib ==
            rst == FromJ(S, typ, e.ref_st)
            impl == /\ e.ok /\ e.equal_self /\ e.clone_ok /\ e.init_ok /\ e.json_ok /\ e.text_ok /\ e.fast_eq
                    /\ (msg = other => e.equal) /\ (e.equal = e.ref_equal)
-                   /\ st = MergeV(S, typ, msg, other)
-           ref == rst = MergeV(S, typ, rmsg, other) /\ (rmsg = other => e.ref_equal)
+                   /\ st = (IF e.ro THEN msg ELSE MergeV(S, typ, msg, other))
+           ref == rst = (IF e.ro THEN rmsg ELSE MergeV(S, typ, rmsg, other)) /\ (rmsg = other => e.ref_equal)
        IN /\ msg' = st
           /\ rmsg' = rst
           /\ Verdict(e, impl, ref,
@@ -156,7 +158,7 @@ Lib ==
                      ELSE IF ~e.json_ok THEN "lib:json"
                      ELSE IF ~e.text_ok THEN "lib:text"
                      ELSE IF ~e.init_ok THEN "lib:checkinitialized"
-                     ELSE IF st # MergeV(S, typ, msg, other) THEN "lib:merge" ELSE "lib:fastproj")
+                     ELSE IF st # (IF e.ro THEN msg ELSE MergeV(S, typ, msg, other)) THEN "lib:merge" ELSE "lib:fastproj")
     /\ UNCHANGED typ
     /\ l' = l + 1
 
@@ -177,9 +179,11 @@ AppendEv ==
                               /\ SubSeq(out, 1, pl) = e.prefix
                               /\ LET rest == SubSeq(out, pl + 1, Len(out))
                                  IN IF e.det THEN rest = EncMsg(S, typ, v) ELSE ValidEnc(typ, rest, v)
-       IN Verdict(e, e.ok /\ okShape(e.out, msg), e.ref_ok /\ okShape(e.ref_out, rmsg),
+           \* out_nil: MarshalAppend(prefix, typed nil pointer) -- a nil message encodes as the empty one
+       IN Verdict(e, e.ok /\ okShape(e.out, msg) /\ e.out_nil = e.prefix \o EncMsg(S, typ, EmptyMsg), e.ref_ok /\ okShape(e.ref_out, rmsg),
                   IF ~e.ok THEN "append:error"
-                  ELSE IF Len(e.out) < pl \/ SubSeq(e.out, 1, pl) # e.prefix THEN "append:prefix" ELSE "append:bytes")
+                  ELSE IF Len(e.out) < pl \/ SubSeq(e.out, 1, pl) # e.prefix THEN "append:prefix"
+                  ELSE IF e.out_nil # e.prefix THEN "append:nil-receiver" ELSE "append:bytes")
     /\ UNCHANGED <<typ, msg, rmsg>>
     /\ l' = l + 1
 
